@@ -55,7 +55,9 @@ func c08sSession(u *user.User, req string) (disclosed []string, problem string) 
 	forms := []string{"cat:quiet=true %s regex:noop ", "cat:quiet=true:serverless=true %s regex:noop ", "cat:quiet=true:plain=true %s regex:noop ",
 		"grep:quiet=true %s regex:default .", "grep:serverless=true:plain=true:quiet=true %s regex:default CONTENT|second", "cat:quiet=true:before=1:after=1 %s regex:noop "}
 	payload := fmt.Sprintf(forms[form%len(forms)], req)
-	h.Write([]byte(fmt.Sprintf("protocol 4.1 base64 %s;", base64.StdEncoding.EncodeToString([]byte(payload)))))
+	// (the two directions of a session are served by separate goroutines in the server and in the serverless connector: a
+	// command that ends the session at once waits inside Write for the close message to be read)
+	go h.Write([]byte(fmt.Sprintf("protocol 4.1 base64 %s;", base64.StdEncoding.EncodeToString([]byte(payload)))))
 	seen := map[string]bool{}
 	buf := make([]byte, 64*1024)
 	deadline := time.Now().Add(15 * time.Second)
@@ -71,7 +73,7 @@ func c08sSession(u *user.User, req string) (disclosed []string, problem string) 
 			msg := string(pending[:i])
 			pending = pending[i+1:]
 			if strings.HasPrefix(msg, ".syn close connection") {
-				h.Write([]byte("protocol 4.1 base64 " + base64.StdEncoding.EncodeToString([]byte(".ack close connection")) + ";"))
+				go h.Write([]byte("protocol 4.1 base64 " + base64.StdEncoding.EncodeToString([]byte(".ack close connection")) + ";"))
 				// the server announced the end of the session: everything it wanted to send has been sent
 				for k := range seen {
 					disclosed = append(disclosed, k)
